@@ -45,4 +45,15 @@ for sid in sorted(os.listdir(SEEDED)):
         "notes": r.get("notes", ""),
     }
     json.dump(meta, open(os.path.join(d, "meta.json"), "w"), indent=1)
+# summary table (pasted into DESIGN.md section 13)
+rows = ["| seeded change | what it breaks (short) | caught by | missed by | demonstration |", "|---|---|---|---|---|"]
+for sid in sorted(os.listdir(SEEDED)):
+    dd = os.path.join(SEEDED, sid)
+    if not os.path.isdir(dd):
+        continue
+    m = json.load(open(os.path.join(dd, "meta.json")))
+    t = re.sub(r"^[Cc]\d+\s*[/_]?\s*m\d\s*-\s*", "", m["title"])
+    rows.append("| `%s` | %s | %s | %s | %s |" % (sid, t[:110], ", ".join(m["detected_by"]) or "-", ", ".join(m["missed_by"]) or "-",
+                                                 "confirmed" if "CONFIRMED" in m["confirmed"] and "NOT" not in m["confirmed"] else m["confirmed"]))
+open(os.path.join(SEEDED, "SUMMARY.md"), "w").write("\n".join(rows) + "\n")
 print("meta.json written for", len([x for x in os.listdir(SEEDED) if os.path.isdir(os.path.join(SEEDED, x))]), "seeds")
